@@ -217,9 +217,13 @@ def parse_numbers(numbers, is_date=False):
             # arange does not include the end point:
             end = to_float(colonList[-1]) + stepSign * 0.0001
             if is_date:
-                date = min(start, end)
+                if step > 0:
+                    date, last = min(start, end), max(start, end)
+                else:
+                    # A negative step counts backwards from the start date
+                    date, last = start, end
                 curr = list()
-                while date <= max(start, end):
+                while stepSign * date <= stepSign * last:
                     curr.append(date)
                     date = get_date(date, step)
                 values = values + list(curr)
